@@ -688,7 +688,73 @@ class Sym:
                         work.append((s3, n + 1))
         return out
 
+    def iter_search_loop(self, s, st):
+        """`for (auto p = c.begin(); p != c.end(); <step>) <test *p and possibly return>`: the linear search written with an iterator,
+        summarised like the range-for search (some element satisfies the test / none does).  Variables the step assigns (a trailing
+        `tail = p++`) hold an unknown position of c afterwards.  None when the loop is not of this form."""
+        init, c = s.get('init'), strip_casts(s.get('c') or {})
+        if not init or init.get('k') != 'decl' or len(init.get('vars', [])) != 1 or not init['vars'][0].get('init'):
+            return None
+        var = init['vars'][0]
+        other = None
+        if c.get('k') == 'unop' and c.get('op') == '!' and strip_casts(c.get('e') or {}).get('k') == 'call' \
+                and (strip_casts(c['e']).get('callee') or {}).get('name') == 'operator==':
+            c2 = strip_casts(c['e'])            # C++20: p != q is !(p == q)
+            ops = ([c2['obj']] if c2.get('obj') else []) + list(c2.get('args', []))
+        elif c.get('k') == 'call' and (c.get('callee') or {}).get('name') == 'operator!=':
+            ops = ([c['obj']] if c.get('obj') else []) + list(c.get('args', []))
+        elif c.get('k') == 'binop' and c.get('op') == '!=':
+            ops = [c.get('l'), c.get('r')]
+        else:
+            return None
+        if len(ops) != 2:
+            return None
+        refs = [strip_casts(o) for o in ops]
+        mine = [i for i, r_ in enumerate(refs) if r_.get('k') == 'ref' and r_.get('kind') == 'local' and r_.get('id') == var['id'] and r_.get('name') == var['name']]
+        if len(mine) != 1:
+            return None
+        other = ops[1 - mine[0]]
+        a = self.ev(var['init'], st.fork())
+        b = self.ev(other, st.fork())
+        if len(a) != 1 or len(b) != 1:
+            return None
+        r = self.whole_range(a[0][1], b[0][1])
+        if r is None:
+            return None
+        pristine = st.fork()
+        elem = ('elem', r)
+        s1 = st.fork()
+        s1.env[('v', var['id'])] = ('iter', elem)
+        s1.env[('n', var['name'])] = ('iter', elem)
+        neff = len(s1.effects)
+        out, fall = [], None
+        for s2, sig in self.exec(s['b'], s1):
+            if s2.throw is not None or (isinstance(sig, tuple) and sig[0] == 'return'):
+                out.append((s2, sig))
+            elif len(s2.effects) != neff or sig == 'break':
+                return None
+            else:
+                fall = s2
+        if fall is not None or not out:
+            s3 = pristine
+            s3.conds.append((('noelem', r, s.get('ln')), True))
+            # what the step expression assigns is a position of the container this evaluation does not know
+            for n in _walk(s.get('inc')):
+                tgt = None
+                if n.get('k') == 'binop' and n.get('op') == '=':
+                    tgt = strip_casts(n.get('l') or {})
+                elif n.get('k') == 'call' and (n.get('callee') or {}).get('name') == 'operator=' and n.get('obj') is not None:
+                    tgt = strip_casts(n['obj'])
+                if tgt and tgt.get('k') == 'ref' and tgt.get('kind') == 'local':
+                    s3.env[('v', tgt['id'])] = ('iter', ('elem', r))
+                    s3.env[('n', tgt['name'])] = ('iter', ('elem', r))
+            out.append((s3, None))
+        return out
+
     def exec_for(self, s, st):
+        res = self.iter_search_loop(s, st)
+        if res is not None:
+            return res
         pre = [st]
         if s.get('init') is not None:
             pre = [s1 for s1, _sig in self.exec(s['init'], st)]
@@ -1853,13 +1919,28 @@ class Sym:
                         s0.throw = 'std::bad_alloc'
                         failed = [(s0, None)]
                     outs = self.emplace(T, targs, cargs, st, recv, name)
+                    # where the new element went: front() / back() designate it only if it went to that end
+                    where = name
+                    if name == 'emplace_after':
+                        pos = args[0] if args else None
+                        at_front = isinstance(pos, tuple) and pos[:1] == ('call',) and fn_simple(pos[1]) in ('before_begin', 'cbefore_begin') and pos[2] == recv
+                        where = 'emplace_front' if at_front else 'emplace_after'
+                    for s_, _o in outs:
+                        if s_.throw is None:
+                            s_.last_emplaced[(recv, 'where')] = where
                     if name == 'emplace_after':
                         return failed + [(s, ('iter', o)) for s, o in outs]
                     return failed + outs
             if name in ('front', 'back') and recv in st.last_emplaced:
-                return [(st, st.last_emplaced[recv])]
+                where = st.last_emplaced.get((recv, 'where'))
+                if where is None or (name == 'front' and where == 'emplace_front') or (name == 'back' and where == 'emplace_back'):
+                    return [(st, st.last_emplaced[recv])]
+                # the element just emplaced went somewhere else: front() / back() is some element of the container
+                return [(st, ('elem', recv))]
             if name == 'operator*' and recv is not None and recv[0] == 'iter':
                 return [(st, recv[1])]
+            if name == 'operator->' and recv is not None and recv[0] == 'iter':
+                return [(st, ('addr', recv[1]))]
             if name in ('operator==', 'operator!=') and len(args) + (recv is not None) == 2:
                 a, b = ([recv] + list(args)) if recv is not None else args
                 def iterish(t):
